@@ -19,7 +19,8 @@ from vcheck import core
 from vcheck.val import from_jsonable, jsonable, zlit
 
 PROP = "C16"
-COQ_TARGETS = ["theories/Model/OptimRun.vo", "theories/Model/NestedRun.vo", "theories/Model/NestedNSRun.vo"]
+COQ_TARGETS = ["theories/Model/OptimRun.vo", "theories/Model/NestedRun.vo", "theories/Model/NestedNSRun.vo",
+               "theories/Model/AppSeq.vo", "theories/Model/UpdateFromCalc.vo"]
 IMPL = "c16_impl.py"
 
 # ====================================================================== wrapper cases
@@ -294,14 +295,15 @@ SENSE = [a + b + c for a in "ACGT" for b in "ACGT" for c in "ACGT" if a + b + c 
 TREES = {3: ["(a,b,c)"], 4: ["((a,b),c,d)", "(a,(b,c),d)"], 5: ["((a,b),(c,d),e)", "(((a,b),c),d,e)"]}
 
 
-def rand_nuc_aln(rng, n, length):
+def rand_nuc_aln(rng, n, length, ts=0.6, rate=None):
+    """ts: probability that a change is forced to be a transition (drives kappa)"""
     names = "abcde"[:n]
     w = [rng.uniform(0.5, 2.0) for _ in range(4)]
     root = rng.choices("ACGT", w, k=length)
-    rate = rng.uniform(0.08, 0.4)
+    rate = rng.uniform(0.08, 0.4) if rate is None else rate
     out = {}
     for nm in names:
-        out[nm] = "".join(c if rng.random() > rate else (rng.choice("AG" if c in "AG" else "CT") if rng.random() < 0.6 else rng.choices("ACGT", w)[0])
+        out[nm] = "".join(c if rng.random() > rate else (rng.choice("AG" if c in "AG" else "CT") if rng.random() < ts else rng.choices("ACGT", w)[0])
                           for c in root)
     return out
 
@@ -649,6 +651,75 @@ def corpus_lfbounds():
     ]
 
 
+def roundtrip_classes():
+    """floats u by the direction in which exp(log(u)) misses u (log-scale parameters are handed to the optimiser
+    as log(value) and come back as exp(...))"""
+    import numpy
+
+    cand = [0.05, 0.1, 0.15, 0.2, 0.3, 0.35, 0.45, 0.7, 1.1, 1.4, 1.7, 2.0, 2.2, 3.0, 3.3, 4.4, 5.0, 6.6, 7.0, 9.0, 10.0, 11.0,
+            12.5, 14.0, 17.0, 20.0, 25.0]
+    out = dict(above=[], below=[], equal=[])
+    for u in cand:
+        r = float(numpy.exp(numpy.log(u)))
+        out["above" if r > u else "below" if r < u else "equal"].append(u)
+    return out
+
+
+def on_bound_case(rng, side, direction, scale="log", scoped=False, max_evaluations=60):
+    """the start is EXACTLY on a declared bound and the data want a value beyond it, so the best point stays on the
+    bound; direction = how exp(log(bound)) misses the bound"""
+    rt = roundtrip_classes()
+    tree = "((a,b),c,d)"
+    edges = edge_names(tree)
+    if scale == "log":
+        pool = rt[direction] or rt["equal"]
+        if side == "upper":
+            b = rng.choice([u for u in pool if u <= 11.0] or pool)
+            seqs = rand_nuc_aln(rng, 4, 120, ts=0.97, rate=0.35)      # very transition rich: kappa wants to be large
+            st = dict(par_name="kappa", upper=b, lower=min(0.01, b / 10), init=b)
+        else:
+            b = rng.choice([u for u in pool if u >= 3.0] or pool)
+            seqs = rand_nuc_aln(rng, 4, 120, ts=0.0, rate=0.35)       # no transition excess: kappa wants to be about 1
+            st = dict(par_name="kappa", lower=b, upper=b * 50, init=b)
+        if scoped:
+            st["edges"] = sorted(rng.sample(edges, 2))
+        return dict(kind="lfbounds", seqs=seqs, tree=tree, sm=rng.choice(["HKY85", "HKY85", "K80"]), pars=["kappa"], steps=[st],
+                    opt=dict(local=True, max_evaluations=max_evaluations, limit_action="ignore"),
+                    on_bound=dict(side=side, direction=direction, scale=scale, bound=b))
+    # linear scale: a branch length
+    e = rng.choice(["a", "b", "c", "d"])
+    if side == "upper":
+        b = rng.choice([0.03, 0.05, 0.07])
+        seqs = rand_nuc_aln(rng, 4, 120, rate=0.45)                    # long branches wanted
+        st = dict(par_name="length", edge=e, upper=b, lower=0.0, init=b)
+    else:
+        b = rng.choice([0.3, 0.7, 1.1])
+        seqs = rand_nuc_aln(rng, 4, 120, rate=0.02)                    # nearly identical sequences: short branches wanted
+        st = dict(par_name="length", edge=e, lower=b, upper=10.0, init=b)
+    return dict(kind="lfbounds", seqs=seqs, tree=tree, sm="HKY85", pars=["length"], steps=[st],
+                opt=dict(local=True, max_evaluations=max_evaluations, limit_action="ignore"),
+                on_bound=dict(side=side, direction=direction, scale=scale, bound=b))
+
+
+def corpus_on_bound():
+    rng = random.Random(9)
+    out = []
+    for side in ("upper", "lower"):
+        for direction in ("above", "below"):
+            out.append(on_bound_case(rng, side, direction))
+    out.append(on_bound_case(rng, "upper", "above", scoped=True))
+    out.append(on_bound_case(rng, "upper", "equal", scale="linear"))
+    out.append(on_bound_case(rng, "lower", "equal", scale="linear"))
+    return out
+
+
+def rand_on_bound(rng):
+    if rng.random() < 0.2:
+        return on_bound_case(rng, rng.choice(["upper", "lower"]), "equal", scale="linear", max_evaluations=rng.choice([20, 60]))
+    return on_bound_case(rng, rng.choice(["upper", "upper", "lower"]), rng.choice(["above", "above", "below", "equal"]),
+                         scoped=rng.random() < 0.3, max_evaluations=rng.choice([5, 20, 60]))
+
+
 def declared_bounds(c, r):
     """the bounds DECLARED for every (parameter, edge) cell: model defaults, then every rule that states a bound, the
     last statement covering the cell wins; rules that only re-scope a parameter change nothing"""
@@ -660,7 +731,7 @@ def declared_bounds(c, r):
         for st in c["steps"]:
             if st.get("op") == "time_het" or st.get("par_name") != par:
                 continue
-            for e in (st.get("edges") or edges):
+            for e in (st.get("edges") or ([st["edge"]] if st.get("edge") else edges)):
                 if st.get("lower") is not None:
                     cell[e][0] = st["lower"]
                 if st.get("upper") is not None:
@@ -694,6 +765,10 @@ def oracle_lfbounds(c, r):
                 break
     if not (r["after"] >= r["before"] - MONO_TOL):
         bad.append(("lfbounds:lost-likelihood", f"lnL {r['before']} -> {r['after']}"))
+    # the finally-clause of optimise copies the optimiser's best point into the likelihood function: same lnL
+    if r.get("calc_best") is not None and abs(r["after"] - r["calc_best"]) > 1e-6 * max(1.0, abs(r["calc_best"])):
+        bad.append(("lfbounds:lf-not-left-at-optimisers-best-point",
+                    f"the calculator ends at its best value {r['calc_best']} but the likelihood function has lnL {r['after']}"))
     return bad
 
 
@@ -817,6 +892,9 @@ def oracle_lfopt(c, r):
         bad.append((f"lfopt:lost-likelihood:{loc_}:{c['opt']['limit_action']}", f"lnL {r['before']} -> {r['after']}"))
     if not slack_ok(r):
         bad.append((f"lfopt:out-of-bounds:{loc_}", str(r.get("slack_who"))))
+    if r.get("calc_best") is not None and abs(r["after"] - r["calc_best"]) > 1e-6 * max(1.0, abs(r["calc_best"])):
+        bad.append((f"lfopt:lf-not-left-at-optimisers-best-point:{loc_}",
+                    f"calculator best {r['calc_best']}, likelihood function {r['after']}"))
     if r["exc"] not in (None, "arith") or (r["exc"] == "arith" and c["opt"]["limit_action"] != "raise"):
         bad.append((f"lfopt:unexpected-exception:{loc_}", str(r["exc"])))
     return bad
@@ -1250,12 +1328,65 @@ def compare_pmapns(rep, cases, outs, proof_broken, disagreements, nontrivial):
     return n_ok
 
 
+# ---------------------------------------------------------------------- update_from_calculator
+
+def rand_ufc(rng):
+    """one setting: bounds in units of 1e-12 (multiples of 1e-3), calculator value on / one ulp-ish beside / inside /
+    far outside a bound; None and 0.0 bounds; constants"""
+    unit = 10 ** 9   # 1e-3
+    lo = rng.choice([None, 0, 1, 10, 500, 3000]) 
+    hi = rng.choice([None, 1000, 3000, 7000, 10 ** 9])
+    lo = None if lo is None else lo * unit
+    hi = None if hi is None else hi * unit
+    if lo is not None and hi is not None and lo >= hi:
+        hi = lo + 1000 * unit
+    anchor = rng.choice([b for b in (lo, hi) if b is not None] or [1000 * unit])
+    off = rng.choice([0, 1, -1, 3, -3, 2000, -2000, anchor // 10 ** 7, -(anchor // 10 ** 7), anchor // 10, -(anchor // 10),
+                      5 * 10 ** 11, -5 * 10 ** 11])
+    return dict(kind="ufc", const=rng.random() < 0.1, lower=lo, upper=hi, output=anchor + off)
+
+
+def coq_ufc(c):
+    o = lambda z: "None" if z is None else f"(Some {zlit(z)})"  # noqa: E731
+    return f"({'true' if c['const'] else 'false'}, {o(c['lower'])}, {o(c['upper'])}, {zlit(c['output'])})"
+
+
+def compare_ufc(rep, cases, outs, proof_broken, disagreements, nontrivial):
+    try:
+        vals = core.coq_eval(PROP, ["Model.UpdateFromCalc"], "run_ufc", [coq_ufc(c) for c in cases], "bool * option Z * option Z * Z",
+                             shard=400, tag="ufc")
+    except core.CheckError as e:
+        if not proof_broken:
+            raise
+        rep.notes.append(f"update_from_calculator model not runnable: {str(e)[:300]}")
+        return
+    for c, r, mv in zip(cases, outs, vals):
+        # specification (update_snaps_to_the_overshot_bound / update_moves_within_tolerance) on the implementation's output
+        if "value" in r and not c["const"]:
+            v, out = r["value"], c["output"] * 1e-12
+            tol = 1e-8 + 1e-5 * max(abs(b * 1e-12) for b in (c["lower"], c["upper"]) if b is not None) if (
+                c["lower"] is not None or c["upper"] is not None) else 0.0
+            if abs(v - out) > tol * 1.0001 + 1e-15:
+                rep.violation("ufc:stored-value-far-from-calculator-value",
+                              dict(case=c, observed_impl=r, expected_by_spec="stored value = calculator value, or the bound it overshot "
+                                   "within numpy.allclose tolerance", model_output=jsonable(mv),
+                                   broken="update_moves_within_tolerance on the real update_from_calculator"))
+                continue
+        m_exc = not isinstance(mv, int)
+        i_exc = "value" not in r
+        same = (m_exc == i_exc) and (m_exc or abs(r["value"] - mv * 1e-12) <= 1e-9 * max(1.0, abs(r["value"])) * 1e-3 + 1e-18)
+        if not same:
+            disagreements.append(dict(key="ufc", case=c, observed_impl=r, model_output=jsonable(mv)))
+        elif not i_exc and c["output"] * 1e-12 != r["value"]:
+            nontrivial.add(json.dumps(["ufc", c["lower"], c["upper"], c["output"]]))
+
+
 # ====================================================================== the check
 
 def tier_sizes(tier):
     if tier == "quick":
-        return dict(wrap=1500, real=60, nested=26, nested_codon=2, hyp=6, hyp_opts=16, lfopt=16, lfbounds=14, nested_const=8, pmap=300, scoped=400, pmapns=300)
-    return dict(wrap=20000, real=1500, nested=700, nested_codon=40, hyp=160, hyp_opts=400, lfopt=500, lfbounds=400, nested_const=250, pmap=4000, scoped=5000, pmapns=4000)
+        return dict(wrap=1500, real=60, nested=26, nested_codon=2, hyp=6, hyp_opts=16, lfopt=16, lfbounds=14, on_bound=10, nested_const=8, pmap=300, scoped=400, pmapns=300, ufc=400)
+    return dict(wrap=20000, real=1500, nested=700, nested_codon=40, hyp=160, hyp_opts=400, lfopt=500, lfbounds=400, on_bound=300, nested_const=250, pmap=4000, scoped=5000, pmapns=4000, ufc=4000)
 
 
 def run(tier: str, seed: int) -> int:
@@ -1298,8 +1429,10 @@ def run(tier: str, seed: int) -> int:
     pmapns_cases = [dict(kind="pmapns", models=list(p), pi=rand_fracs(rng, 4), vals=rand_fracs(rng, 5),
                          const=[rng.random() < 0.5 for _ in range(5)]) for p in PMAPNS_PAIRS for _ in range(3)]
     pmapns_cases += [rand_pmapns(rng) for _ in range(sz["pmapns"])]
-    light = wrap_cases + real_cases + pmap_cases + scoped_cases + pmapns_cases
-    heavy = corpus_nested() + corpus_hyp() + corpus_hyp_opts() + corpus_lfbounds()
+    ufc_cases = [rand_ufc(rng) for _ in range(sz["ufc"])]
+    light = wrap_cases + real_cases + pmap_cases + scoped_cases + pmapns_cases + ufc_cases
+    heavy = corpus_nested() + corpus_hyp() + corpus_hyp_opts() + corpus_lfbounds() + corpus_on_bound()
+    heavy += [rand_on_bound(rng) for _ in range(sz["on_bound"])]
     heavy += [rand_nested_const(rng) for _ in range(sz["nested_const"])]
     heavy += [rand_lfbounds(rng) for _ in range(sz["lfbounds"])]
     heavy += [rand_nested(rng, tier) for _ in range(sz["nested"])]
@@ -1319,10 +1452,11 @@ def run(tier: str, seed: int) -> int:
     wrap_out, real_out = light_out[:nw], light_out[nw:nw + nr]
     nsc = len(scoped_cases)
     pmap_out, scoped_out = light_out[nw + nr:nw + nr + npm], light_out[nw + nr + npm:nw + nr + npm + nsc]
-    pmapns_out = light_out[nw + nr + npm + nsc:]
+    pmapns_out = light_out[nw + nr + npm + nsc:nw + nr + npm + nsc + len(pmapns_cases)]
+    ufc_out = light_out[nw + nr + npm + nsc + len(pmapns_cases):]
 
     disagreements = []
-    counts = dict(wrap=0, real=0, pmap=0, scoped=0, pmapns=0, nested=0, hyp=0, lfopt=0, lfbounds=0)
+    counts = dict(wrap=0, real=0, pmap=0, scoped=0, pmapns=0, ufc=0, nested=0, hyp=0, lfopt=0, lfbounds=0)
     nontrivial = set()
     dist = dict(wrap_endings={}, wrap_local={}, nested_classes={}, hyp_classes={}, hyp_pairs={}, nested_pairs={}, lfopt_modes={})
 
@@ -1382,6 +1516,8 @@ def run(tier: str, seed: int) -> int:
     counts["pmap"], counts["scoped"] = len(pmap_cases), len(scoped_cases)
     dist["pmapns_nested_ok"] = compare_pmapns(rep, pmapns_cases, pmapns_out, proof_broken, disagreements, nontrivial)
     counts["pmapns"] = len(pmapns_cases)
+    compare_ufc(rep, ufc_cases, ufc_out, proof_broken, disagreements, nontrivial)
+    counts["ufc"] = len(ufc_cases)
 
     # ---------------- (d) likelihood functions
     for c, r in zip(heavy, heavy_out):
@@ -1405,6 +1541,13 @@ def run(tier: str, seed: int) -> int:
                 nontrivial.add(json.dumps(["hyp", c["null"], c["alts"], r.get("lnL")]))
         elif k == "lfbounds":
             bad = oracle_lfbounds(c, r)
+            if c.get("on_bound"):
+                ob = c["on_bound"]
+                lab = f"{ob['scale']}:{ob['side']}:exp(log(b)) {ob['direction']} b"
+                still = any(abs(v - ob["bound"]) <= 1e-9 * max(1.0, ob["bound"]) for be in r.get("values", {}).values() for v in be.values())
+                dist.setdefault("on_bound", {})
+                dist["on_bound"][lab + (" | best stays on bound" if still else " | moved inside")] = \
+                    dist["on_bound"].get(lab + (" | best stays on bound" if still else " | moved inside"), 0) + 1
             if not bad:
                 decl = declared_bounds(c, r)
                 at = sum(1 for par, be in r["values"].items() for e, v in be.items()
@@ -1488,6 +1631,8 @@ def run(tier: str, seed: int) -> int:
             "per-scope bounds: the bound table of one parameter under re-scoping rules is modelled and proved (Model/ScopeBounds.v); "
             "rules that merge cells with different declared bounds into one tied scope (the code takes the envelope) are not generated; "
             "constant settings and the transform to optimiser space are not modelled",
+            "update_from_calculator: the clipping branches are modelled on fixed-point integers with numpy.allclose as a "
+            "parameter; the float rounding of exp(log(x)) itself is exercised by the on-bound cases, not modelled",
             "theorems for the nested initialisation are stated for both transcribed variants of the source (pinned / with proposed "
             "fixes); the two *_refuted theorems show the pinned variant violating totality / exactness on nested inputs",
         ],
@@ -1532,7 +1677,9 @@ def replay(path: str) -> int:
         rep = core.Report(PROP, "replay", 0)
         rep.findings = []
         dis = []
-        if k == "pmapns":
+        if k == "ufc":
+            compare_ufc(rep, [c], [r], False, dis, set())
+        elif k == "pmapns":
             compare_pmapns(rep, [c], [r], False, dis, set())
         elif k == "pmap":
             compare_nested_logic(rep, [c], [r], [], [], False, dis, set())
